@@ -256,6 +256,22 @@ class ClassParser(BaseParser):
         self.attr_alias_map = attr_alias_map
         self.case_insensitive_names = case_insensitive_names
 
+    def resolve_forward_refs(self, local_vars=None, ignore_errors: bool = True):
+        # fields taken over from a base class keep their pending refs in the base's parser:
+        # resolve those first, or a subclass used before its base never sees them evaluated
+        resolved = False
+        for base in self.obj.__bases__:
+            if not isinstance(base, type(self.obj)) or base is object:
+                continue
+            parser = self.apply_for(base)
+            if parser.resolve_forward_refs(
+                local_vars=local_vars, ignore_errors=ignore_errors
+            ):
+                resolved = True
+        if super().resolve_forward_refs(local_vars=local_vars, ignore_errors=ignore_errors):
+            resolved = True
+        return resolved
+
     def make_setter(self, field: ParserField, post_setattr=None):
         def setter(_obj_self: object, value):
             if self.options.immutable or field.immutable:
